@@ -383,13 +383,32 @@ def value_is_none_or_parsed(v):
     return False
 
 
+def check_parse_date(P, R):
+    f = P.func('ombott.common_helpers:parse_date')
+    mk = [c for c in walk_shallow(f.node) if isinstance(c, ast.Call) and dotted(c.func) in ('time.mktime', 'calendar.timegm')]
+    R.require(mk, 'parse_date: no mktime/timegm conversion')
+    for c in mk:
+        a = c.args[0] if c.args else None
+        if dotted(c.func) == 'calendar.timegm':
+            R.ob('C17.f', f, c, True, text='calendar.timegm (UTC, no DST)')
+            continue
+        uses_tz = any(isinstance(x, ast.Attribute) and dotted(x) == 'time.timezone' for x in ast.walk(f.node))
+        dst0 = isinstance(a, ast.BinOp) and isinstance(a.op, ast.Add) and isinstance(a.right, ast.Tuple) and len(a.right.elts) == 1 and is_const(a.right.elts[0], 0)
+        ok = dst0 or not uses_tz
+        R.ob('C17.f', f, c, ok, text=f'{short(c)}: tm_isdst forced to 0 (the result is corrected by the non-DST offset time.timezone)', detail='' if ok else
+             'mktime() is given the parsed tuple with tm_isdst = -1, so it guesses daylight saving from the local zone, while the correction term subtracts the '
+             'non-DST offset: in a DST period every HTTP date parses one hour early and If-Modified-Since equal to the file time compares as older (200 instead of 304)',
+             why='a date not older than the file yields 304', key_extra='isdst')
+
+
 def check(P, R):
     R.rule('C17.a', 'one slice, three descriptions', floor=7)
     R.rule('C17.b', 'parser returns clipped ordered pairs, raises nothing', floor=8)
     R.rule('C17.c', 'bounded streaming with received-length accounting', floor=7)
     R.rule('C17.d', 'full response carries the true length', floor=2)
     R.rule('C17.e', '304 / HEAD carry no body', floor=3)
-    R.rule('C17.f', 'conditional date comparison type-safe and whole-second', floor=2)
+    R.rule('C17.f', 'conditional date comparison type-safe and whole-second', floor=3)
     check_parser(P, R)
     check_stream(P, R)
     check_static_file(P, R)
+    check_parse_date(P, R)
